@@ -7,6 +7,7 @@ import Driver.C11
 import Driver.C20
 import Driver.C19
 import Driver.C18
+import Driver.C17
 import Driver.Pipeline
 import Driver.Data
 import Driver.C01
@@ -22,6 +23,7 @@ def dispatch (prop : String) (input : Json) : Except String Json :=
   | "C20" => Driver.C20.handle input
   | "C19" => Driver.C19.handle input
   | "C18" => Driver.C18.handle input
+  | "C17" => Driver.C17.handle input
   | "C14" => Driver.Data.handle input
   | "C01" => Driver.C01.handle input
   | "C02" => Driver.C01.handle input
